@@ -59,6 +59,43 @@ OffsetsAt(z, t) == {z[i].to : i \in Active(z, t)}
 NamesAt(z, t) == {z[i].name : i \in Active(z, t)}
 KindsAt(z, t) == {z[i].kind : i \in Active(z, t)}
 
+\* ------------------------------------------------------------------ Impl mirror: Timezone.get_transitions + pytz lookup
+\* get_transitions collects one tuple <<local, from, to, name>> per onset (a set, so duplicates of one
+\* observance collapse), sorts the tuples -- i.e. by LOCAL time first --, and derives
+\*   transition_times[k] = local[k] - from[k]
+\*   transition_info[k]  = <<to[k], dst[k], name[k]>>
+\* with dst = 0 for STANDARD, else to - (to of the nearest earlier STANDARD transition, or, when there
+\* is none, of the first STANDARD transition at or after k).  pytz then looks an instant up with
+\* bisect_right on transition_times -- which assumes they ascend.
+TupleLess(a, b) == \/ a[1] < b[1]
+                   \/ (a[1] = b[1] /\ a[2] < b[2])
+                   \/ (a[1] = b[1] /\ a[2] = b[2] /\ a[3] < b[3])
+                   \/ (a[1] = b[1] /\ a[2] = b[2] /\ a[3] = b[3] /\ a[4] < b[4])     \* a[4]: index standing for the name
+RECURSIVE SortTuples(_)
+SortTuples(S) == IF S = {} THEN <<>>
+                 ELSE LET m == CHOOSE x \in S : \A y \in S : y # x => TupleLess(x, y) \/ (x[1] = y[1] /\ x[2] = y[2] /\ x[3] = y[3] /\ x[4] = y[4])
+                      IN <<m>> \o SortTuples(S \ {m})
+ImplTransitions(z) == SortTuples(UNION {{<<l, z[i].from, z[i].to, i>> : l \in z[i].local} : i \in 1..Len(z)})
+ImplTimes(tr) == [k \in 1..Len(tr) |-> tr[k][1] - tr[k][2]]
+IsStd(z, i) == z[i].kind = "STANDARD"
+ImplDst(z, tr, k) ==
+    IF IsStd(z, tr[k][4]) THEN 0
+    ELSE LET back == {j \in 1..(k - 1) : IsStd(z, tr[j][4])}
+             fwd == {j \in k..Len(tr) : IsStd(z, tr[j][4])}
+         IN IF back # {} THEN tr[k][3] - tr[CHOOSE j \in back : \A j2 \in back : j2 <= j][3]
+            ELSE IF fwd # {} THEN tr[k][3] - tr[CHOOSE j \in fwd : \A j2 \in fwd : j <= j2][3]
+            ELSE -1           \* the code asserts here (no STANDARD observance at all)
+\* bisect.bisect_right(a, x) as Python computes it (also on a list that does not ascend)
+RECURSIVE BisectRight(_, _, _, _)
+BisectRight(a, x, lo, hi) == IF lo >= hi THEN lo
+                             ELSE LET mid == (lo + hi) \div 2
+                                  IN IF x < a[mid + 1] THEN BisectRight(a, x, lo, mid) ELSE BisectRight(a, x, mid + 1, hi)
+\* index (1-based) of the transition pytz uses for UTC instant t
+ImplIndex(times, t) == LET b == BisectRight(times, t, 0, Len(times)) IN IF b - 1 < 0 THEN 1 ELSE b
+ImplAnswer(z, t) == LET tr == ImplTransitions(z)
+                        k == ImplIndex(ImplTimes(tr), t)
+                    IN [off |-> tr[k][3], name |-> z[tr[k][4]].name, dst |-> ImplDst(z, tr, k), std |-> IsStd(z, tr[k][4])]
+
 \* ------------------------------------------------------------------ C13: generated VTIMEZONE
 \* window [w0, w1) in minutes; every observance complete, every onset inside the window
 WellFormedGen(z, w0, w1, slack) ==
